@@ -1,6 +1,7 @@
 package rules
 
 import (
+	"strings"
 	"xvc/q"
 )
 
@@ -94,6 +95,7 @@ func c12(c *q.Ctx) {
 	}
 	// key extraction
 	lockKeyExtraction(c)
+	utxoCacheRemove(c)
 	tl := c.Fn(ut + "(*SpinLock).TryLock")
 	if tl != nil {
 		c.Guard(tl, q.Cond{Canon: "(1 == sync.(*Map).LoadOrStore(p0.m,p1[].key,p1[].lockType)#0)", Sense: false}, q.ToSuccess(), q.Opt{})
@@ -122,4 +124,18 @@ func lockKeyExtraction(c *q.Ctx) {
 		c.Effect(ek, q.Eff{Spec: "delete", Arg: 0, Glob: "newmap<map[string]bool>", Req: []q.Cond{{Canon: "(\"$transient\" == p1.TxOutputsExt[].Bucket)", Sense: false}}, Why: "a key that is read and written is locked exclusively only: it leaves the shared set", Rule: "K2"})
 		c.StoreIs(ek, "LockKey.lockType", "1 OR 2", 4, "inputs, own outputs and written keys exclusive (2); read-only keys shared (1)")
 	}
+}
+
+// utxoCacheRemove (C12, C02, C03): a spent output leaves the cache's authoritative index (All) whether or not a
+// selector has already taken it out of the Available index - CheckInputEqualOutput trusts All, so an entry that stays
+// there admits a second spend of the same output.
+func utxoCacheRemove(c *q.Ctx) {
+	rm := c.Fn("bcs/ledger/xledger/state/utxo::(*UtxoCache).remove")
+	if rm == nil {
+		return
+	}
+	keep := func(g q.Cond) bool { return strings.Contains(g.Canon, "p0.A") }
+	inAll := []q.Cond{{Canon: "has(p0.All,p1)", Sense: true}, {Canon: "(nil == p0.All[p1][p2])", Sense: false}}
+	c.Effect(rm, q.Eff{Spec: "delete", Arg: 0, Glob: "p0.All[p1]", Req: inAll, Exact: true, Keep: keep, Why: "the entry leaves All exactly when it is in All (what Available says does not matter)", Rule: "K6"})
+	c.Effect(rm, q.Eff{Spec: "delete", Arg: 0, Glob: "p0.Available[p1]", Req: []q.Cond{{Canon: "has(p0.Available,p1)", Sense: true}}, Why: "and leaves Available if it is there", Rule: "K6"})
 }
